@@ -50,6 +50,9 @@ OPTION_SETS = {
     "default": [],
     "noopt_nodebump": ["--noopt", "--nodebump"],
     "assign_only_h": ["--assign-only"],
+    "neutraln": ["--neutraln"],
+    "neutralc": ["--neutralc"],
+    "neutral_both": ["--neutraln", "--neutralc"],
 }
 
 # ---------------------------------------------------------------------------
@@ -372,7 +375,7 @@ def enumerate_cases(tier, seed):
     chunk = 40
     for i in range(0, len(programs), chunk):
         cases.append({"mode": "program", "programs": programs[i:i + chunk]})
-    for optname in OPTION_SETS:
+    for optname in ("default", "noopt_nodebump", "assign_only_h"):
         for ff in corpus.FFS:
             for x in corpus.INPUT_NAMES:
                 for pos in corpus.POSITIONS:
@@ -391,6 +394,12 @@ def enumerate_cases(tier, seed):
                                       "opt": optname,
                                       "desc": {"x": x, "pos": pos,
                                                "hydrogens": True}})
+    # neutral termini (PARSE only): NEUTRAL-N* / NEUTRAL-C* parameter sets
+    for optname in ("neutraln", "neutralc", "neutral_both"):
+        for x in corpus.INPUT_NAMES:
+            for pos in ("n", "c"):
+                cases.append({"mode": "e2e", "kind": "host", "ff": "PARSE",
+                              "opt": optname, "desc": {"x": x, "pos": pos}})
     strands = [(["DA", "DT", "DG"], "legacy"), (["DC", "DG", "DA"], "modern"),
                (["RA", "RU", "RG"], "legacy"), (["RC", "RG", "RU"], "short"),
                (["DT", "DC"], "legacy"), (["RU", "RC"], "modern")]
